@@ -13,7 +13,7 @@ EX2 = Namespace("ex2", "http://example.org/2/")
 STRINGS = ["plain", "ünïcødé ファイル", 'quo"te', "two\nlines", "\U0001F600 astral", "<a&b>", "back\\slash", "  spaced ",
            "line\u2028separator", "paragraph\u2029separator", "next\u0085line", "tab\there",
            # valid Unicode that is not in normalisation form C (decomposed accent, singletons): must come back as typed
-           "Ame\u0301lie", "\u212b ngstro\u0308m \u2126"]
+           "Ame\u0301lie", "\u212b ngstro\u0308m \u2126", "It\x92s \x7f", "\ufdd0\U0001fffe"]
 TIMES = [datetime.datetime(2012, 3, 31, 9, 21), datetime.datetime(1999, 12, 31, 23, 59, 59, 999000),
          datetime.datetime(2012, 3, 31, 9, 21, tzinfo=datetime.timezone.utc),
          datetime.datetime(2020, 2, 29, 12, 0, tzinfo=datetime.timezone(datetime.timedelta(hours=5, minutes=30)))]
